@@ -709,4 +709,87 @@ package serf
 //@         hasLatest(c, k) == old(hasLatest(c, k)) && c.latestEvents[k] == old(c.latestEvents[k]) })
 //@ end
 
+// an event for k is pending and would not be suppressed: it differs from the kind last reported for k, or is an update
+//@ pure func suppressed(c *memberEventCoalescer, k string) bool {
+//@   return hasLast(c, k) && mapAt(c.lastEvents, k) == mapAt(c.latestEvents, k).Type && mapAt(c.latestEvents, k).Type != EventMemberUpdate
+//@ }
+//@ pure func flushReports(c *memberEventCoalescer, k string) bool { return hasLatest(c, k) && !suppressed(c, k) }
+// the j-th event sent on ch is a member event; its value
+//@ pure func sentIsMemberEvent(ch chan<- Event, j int) bool { _, ok := sentAt(ch, j).(MemberEvent); return ok }
+//@ pure func sentMemberEvent(ch chan<- Event, j int) MemberEvent { m, _ := sentAt(ch, j).(MemberEvent); return m }
+
+//@ pure func hasEv(e map[EventType]*MemberEvent, t EventType) bool { _, ok := e[t]; return ok }
+
+//@ func (c *memberEventCoalescer) Flush(outCh chan<- Event)
+//@   requires wf: wfCoalescer(c)
+//@   requires out_open: !closed(outCh)
+//@   oldlet n0 := sentN(outCh)
+//@   let n1 := sentN(outCh)
+//@   ensures wf [C17]: wfCoalescer(c)
+//@   # everything sent is a member event; whoever is reported had a pending, unsuppressed event, and is reported with it
+//@   ensures only_member_events [C17]: n0 <= n1 && forall(func(j int) bool { return n0 <= j && j < n1 ==> sentIsMemberEvent(outCh, j) })
+//@   ensures reported_is_latest [C17]: forall2(func(j, i int) bool {
+//@       ev := sentMemberEvent(outCh, j)
+//@       m := ev.Members[i]
+//@       return n0 <= j && j < n1 && 0 <= i && i < len(ev.Members) ==>
+//@         old(flushReports(c, m.Name)) && old(c.latestEvents[m.Name].Type) == ev.Type &&
+//@         old(same(*c.latestEvents[m.Name].Member, m)) })
+//@   # ... at most once per flush
+//@   ensures at_most_once [C17]: forall2(func(j, i int) bool { return forall2(func(j2, i2 int) bool {
+//@       ev := sentMemberEvent(outCh, j)
+//@       ev2 := sentMemberEvent(outCh, j2)
+//@       return n0 <= j && j < n1 && 0 <= i && i < len(ev.Members) && n0 <= j2 && j2 < n1 && 0 <= i2 && i2 < len(ev2.Members) && (j != j2 || i != i2) ==>
+//@         ev.Members[i].Name != ev2.Members[i2].Name }) })
+//@   # ... and every member with a pending unsuppressed event is reported
+//@   ensures all_reported [C17]: forall(func(k string) bool { return old(flushReports(c, k)) ==>
+//@       exists2(func(j, i int) bool { ev := sentMemberEvent(outCh, j)
+//@         return n0 <= j && j < n1 && 0 <= i && i < len(ev.Members) && ev.Members[i].Name == k }) })
+//@   # the kind last reported is remembered, and the next window starts empty
+//@   ensures last_kind_recorded [C17]: forall(func(k string) bool {
+//@       return (old(flushReports(c, k)) ==> hasLast(c, k) && c.lastEvents[k] == old(c.latestEvents[k].Type)) &&
+//@         (!old(flushReports(c, k)) ==> hasLast(c, k) == old(hasLast(c, k)) && c.lastEvents[k] == old(c.lastEvents[k])) })
+//@   ensures window_reset [C17]: forall(func(k string) bool { return !hasLatest(c, k) })
+//@   # loop 1 builds one event per kind out of the pending entries
+//@   loop 1 vars events map[EventType]*MemberEvent
+//@   loop 1 invariant wf [C17]: wfCoalescer(c) && events != nil && same(c.latestEvents, old(c.latestEvents)) && same(c.lastEvents, old(c.lastEvents))
+//@   loop 1 invariant pending_kept [C17]: forall(func(k string) bool { return hasLatest(c, k) == old(hasLatest(c, k)) && mapAt(c.latestEvents, k) == old(mapAt(c.latestEvents, k)) })
+//@   loop 1 invariant visited_pending [C17]: forall(func(k string) bool { return visited(c.latestEvents, k) ==> hasLatest(c, k) })
+//@   loop 1 invariant per_kind [C17]: forall(func(t EventType) bool { return hasEv(events, t) ==>
+//@       mapAt(events, t) != nil && allocated(mapAt(events, t)) && fresh(mapAt(events, t)) && mapAt(events, t).Type == t && len(mapAt(events, t).Members) >= 0 &&
+//@       (nilSlice(mapAt(events, t).Members) || arrayAllocated(mapAt(events, t).Members)) })
+//@   loop 1 invariant per_kind_distinct [C17]: forall2(func(t, u EventType) bool { return hasEv(events, t) && hasEv(events, u) && t != u ==>
+//@       mapAt(events, t) != mapAt(events, u) && disjoint(mapAt(events, t).Members, mapAt(events, u).Members) })
+//@   loop 1 invariant last_unvisited [C17]: forall(func(k string) bool { return !visited(c.latestEvents, k) ==>
+//@       hasLast(c, k) == old(hasLast(c, k)) && mapAt(c.lastEvents, k) == old(mapAt(c.lastEvents, k)) })
+//@   loop 1 invariant last_visited [C17]: forall(func(k string) bool { return visited(c.latestEvents, k) ==>
+//@       (old(flushReports(c, k)) ==> hasLast(c, k) && mapAt(c.lastEvents, k) == mapAt(c.latestEvents, k).Type) &&
+//@       (!old(flushReports(c, k)) ==> hasLast(c, k) == old(hasLast(c, k)) && mapAt(c.lastEvents, k) == old(mapAt(c.lastEvents, k))) })
+//@   loop 1 invariant gathered_visited [C17]: forall2(func(t EventType, i int) bool {
+//@       return hasEv(events, t) && 0 <= i && i < len(mapAt(events, t).Members) ==> visited(c.latestEvents, mapAt(events, t).Members[i].Name) })
+//@   loop 1 invariant gathered_pending [C17]: forall2(func(t EventType, i int) bool {
+//@       nm := mapAt(events, t).Members[i].Name
+//@       return hasEv(events, t) && 0 <= i && i < len(mapAt(events, t).Members) ==> old(hasLatest(c, nm)) })
+//@   loop 1 invariant gathered_unsuppressed [C17]: forall2(func(t EventType, i int) bool {
+//@       nm := mapAt(events, t).Members[i].Name
+//@       return hasEv(events, t) && 0 <= i && i < len(mapAt(events, t).Members) ==> !old(suppressed(c, nm)) })
+//@   loop 1 invariant gathered_kind [C17]: forall2(func(t EventType, i int) bool {
+//@       return hasEv(events, t) && 0 <= i && i < len(mapAt(events, t).Members) ==> mapAt(c.latestEvents, mapAt(events, t).Members[i].Name).Type == t })
+//@   loop 1 invariant gathered_value [C17]: forall2(func(t EventType, i int) bool {
+//@       return hasEv(events, t) && 0 <= i && i < len(mapAt(events, t).Members) ==> same(*mapAt(c.latestEvents, mapAt(events, t).Members[i].Name).Member, mapAt(events, t).Members[i]) })
+//@   loop 1 invariant gathered_once [C17]: forall3(func(t EventType, i, j int) bool {
+//@       return hasEv(events, t) && 0 <= i && i < j && j < len(mapAt(events, t).Members) ==> mapAt(events, t).Members[i].Name != mapAt(events, t).Members[j].Name })
+//@   loop 1 invariant gathered_all [C17]: forall(func(k string) bool { return visited(c.latestEvents, k) && old(flushReports(c, k)) ==>
+//@       hasEv(events, mapAt(c.latestEvents, k).Type) && exists(func(i int) bool {
+//@         return 0 <= i && i < len(mapAt(events, mapAt(c.latestEvents, k).Type).Members) && mapAt(events, mapAt(c.latestEvents, k).Type).Members[i].Name == k }) })
+//@   # loop 2 sends each of them once
+//@   loop 2 vars events map[EventType]*MemberEvent
+//@   loop 2 invariant sent_are_kinds [C17]: n0 <= sentN(outCh) && forall(func(j int) bool { return n0 <= j && j < sentN(outCh) ==>
+//@       sentIsMemberEvent(outCh, j) && hasEv(events, sentMemberEvent(outCh, j).Type) && visited(events, sentMemberEvent(outCh, j).Type) &&
+//@       sameSlice(sentMemberEvent(outCh, j).Members, mapAt(events, sentMemberEvent(outCh, j).Type).Members) })
+//@   loop 2 invariant sent_kinds_distinct [C17]: forall2(func(j, j2 int) bool { return n0 <= j && j < j2 && j2 < sentN(outCh) ==>
+//@       sentMemberEvent(outCh, j).Type != sentMemberEvent(outCh, j2).Type })
+//@   loop 2 invariant visited_sent [C17]: forall(func(t EventType) bool { return visited(events, t) ==>
+//@       exists(func(j int) bool { return n0 <= j && j < sentN(outCh) && sentMemberEvent(outCh, j).Type == t }) })
+//@ end
+
 // END-OF-CONTRACTS
